@@ -114,6 +114,8 @@ sim::Json generate(const std::string& tier, uint64_t seed, uint64_t index) {
   if (rng.chance(0.2)) add_suf("probsuf", 3, true, 1, 77);
   sc.set("suffixes", sufs);
   sc.set("names", rng.chance(0.5));
+  // a caller that names only the items it cares about: some columns / rows carry the empty name
+  if (rng.chance(0.25)) sc.set("empty_names_seed", (long)(1 + rng.below(1000000)));
   sc.set("text", rng.chance(0.5)); sc.set("comments", rng.chance(0.5));
   sc.set("points_seed", (double)rng.below(1000000));
   sc.set("default_nlopts", rng.chance(0.15));   // the caller never calls SetNLOptions(): "if not provided, default is used" (binary, no comments)
@@ -217,6 +219,11 @@ sim::RunResult run(const sim::Json& sc) {
   bool names = sc["names"].as_bool();
   for (int j = 0; j < n; ++j) cn.push_back("col" + std::to_string(j + 1) + (j % 3 == 1 ? "['a b']" : ""));
   for (int i = 0; i < m; ++i) rn.push_back("row" + std::to_string(i + 1));
+  if (sc.has("empty_names_seed")) {
+    sim::Rng er((uint64_t)sc["empty_names_seed"].as_int(), "C08empty", 0);
+    for (auto& q : cn) if (er.chance(0.3)) q.clear();
+    for (auto& q : rn) if (er.chance(0.3)) q.clear();
+  }
   for (auto& s : cn) cnp.push_back(s.c_str());
   for (auto& s : rn) rnp.push_back(s.c_str());
   std::vector<int> wxi, wyi; std::vector<double> wxv, wyv;
@@ -592,6 +599,33 @@ sim::RunResult run(const sim::Json& sc) {
         if ((int)ss->values_.size() != n) flag("WRONG_SOLUTION_SIZE", "sstatus", "sstatus has " + std::to_string(ss->values_.size()) + " values");
         else for (int j = 0; j < n; ++j) if ((int)ss->values_[j] != SimBackend::StatusTag(salt, vperm[j])) flag("WRONG_SUFFIX_BACK", "sstatus", "column " + std::to_string(j) + " received status " + std::to_string((int)ss->values_[j]) + ", position " + std::to_string(vperm[j]) + " had " + std::to_string(SimBackend::StatusTag(salt, vperm[j])));
       }
+    }
+  }
+  // names follow their items all the way to the solver: the driver reads <stub>.col / .row with the library's name reader
+  if (viol.empty() && solved && sol && names && (int)sm.vars.size() >= n) {
+    int named = 0;
+    for (int j = 0; j < n; ++j) {
+      const StubVar& sv = sm.vars[(size_t)vperm[j]];
+      if (cn[j].empty()) continue;
+      ++named;
+      if (sv.has_name && sv.name != cn[j]) { flag("WRONG_NAMES", "solver-col", "column " + std::to_string(j) + " named '" + cn[j] + "' (position " + std::to_string(vperm[j]) + ") reached the solver as '" + sv.name + "'"); break; }
+    }
+    if (named) r.stats.set("names_checked_at_solver", 1);
+    if (sc.has("empty_names_seed")) r.stats.set("some_names_empty", 1);
+    for (int i = 0; i < m && viol.empty(); ++i) {
+      if (rn[i].empty()) continue;
+      std::set<std::pair<int, double>> want;
+      size_t e = i + 1 < m ? astart[i + 1] : aindex.size();
+      for (size_t q = astart[i]; q < e; ++q) want.insert({vperm[aindex[q]], avalue[q]});
+      if (want.empty()) continue;
+      int found = 0; const StubCon* img = nullptr;
+      for (auto& dc : sm.cons) {
+        if (!dc.is_alg || !dc.quad.empty()) continue;
+        std::set<std::pair<int, double>> got;
+        for (auto& t : dc.lin) got.insert({t.var, t.coef});
+        if (got == want && dc.lb == rlb[i] && dc.ub == rub[i]) { ++found; img = &dc; }
+      }
+      if (found == 1 && !img->name.empty() && img->name != rn[i]) flag("WRONG_NAMES", "solver-row", "row " + std::to_string(i) + " named '" + rn[i] + "' reached the solver as '" + img->name + "'");
     }
   }
   // constraint basis statuses come back too (same suffix name on another kind), matched by row content
